@@ -33,7 +33,7 @@ RULE = ("source repositories from C09's recipe options (tags, stashes, foreign k
         "concurrent pushes against one head; non-trivial = universe of at least 20 chunks; distinct by recipe")
 ASSUMPTIONS = ["file:// remotes in temp directories, single process", "in-progress merge/rebase state is local and is not transferred"]
 REQUIRED_TAGS = ["race", "race-one-winner", "nonff-refused", "clone-equal", "pull-equal", "multi-level",
-                 "adaptive-out-of-band-small-value", "interrupt", "int-push-data-no-ref", "int-push-ref-moved", "int-fetch", "int-pull", "int-clone", "int-all-fired"]
+                 "adaptive-out-of-band-small-value", "transport-grpc", "transport-file", "race-grpc", "race-file", "interrupt", "int-push-data-no-ref", "int-push-ref-moved", "int-fetch", "int-pull", "int-clone", "int-all-fired"]
 HARNESS_TIMEOUT = 2400
 COQ_SHARD = 8
 
@@ -45,6 +45,7 @@ def gen_cases(rng, tier):
         c = {"scn": "plain", "rows": [3, 30, 400, 5][j % 4] if j < 4 else rng.choice([3, 5, 30, 400]), "race": j % 2 == 0}
         for k in ("tag", "stash", "fk", "idx", "blob"):
             c[k] = rng.random() < 0.5
+        c["grpc"] = j % 4 in (0, 3)        # remotesapi transport (in-process remotesrv, gRPC+HTTP) instead of file://
         c["wide"] = (j % 2 == 1) or rng.random() < 0.3    # wide rows: short out-of-band adaptive values must be transferred
         cases.append(c)
     # interrupted transfers on the real code: every injected failure point of push (sink side: HasMany, WriteTableFile
@@ -83,6 +84,14 @@ def classify(case, out):
     t = []
     if case.get("wide"):
         t.append("adaptive-out-of-band-small-value")
+    if case.get("grpc"):
+        t.append("transport-grpc")
+        if case.get("race"):
+            t.append("race-grpc")
+    elif not case.get("interrupt"):
+        t.append("transport-file")
+        if case.get("race"):
+            t.append("race-file")
     if case.get("race"):
         t.append("race")
         if o.get("race_winners") == 1:
@@ -123,7 +132,7 @@ def nontrivial(case, out):
 
 
 def shrink_candidates(case):
-    for k in ("tag", "stash", "fk", "idx", "blob", "race"):
+    for k in ("tag", "stash", "fk", "idx", "blob", "wide"):
         if case.get(k):
             c = dict(case)
             c[k] = False
